@@ -390,6 +390,37 @@ def rule_K_body(m, f):
     return None
 
 
+def clone_by_terms(m, f):
+    """None if clone(self) is leaf-for-leaf the value of self (terms), else a reason"""
+    import equiv, engine
+    import terms as T
+    from interp import State, _leaf_terms
+    try:
+        with equiv.TermMode():
+            engine._INTERPS.clear()
+            I = engine.mk_interp(m, 20_000_000)
+            st = State()
+            args = engine.default_args(I, st, f)
+            want = []
+            _leaf_terms(st.mem[args[0].obj], want)
+            status, r = engine.run(I, f['id'], args, st)
+            if status != 'ok':
+                return 'could not be interpreted (%s %s)' % (status, str(r)[:120])
+            got = []
+            _leaf_terms(r, got)
+        if len(got) != len(want):
+            return 'the clone has %d leaves, self has %d' % (len(got), len(want))
+        for i, (g, w) in enumerate(zip(got, want)):
+            if g is None or g is not w:
+                return 'leaf %d of the clone is %s, self has %s' % (i, T.show(g, 0, 3) if g is not None else 'not a term', T.show(w, 0, 3))
+        return None
+    except Exception as e:
+        return 'analysis error %r' % (e,)
+    finally:
+        import engine as _e
+        _e._INTERPS.clear()
+
+
 def rule_K(chk, cfgname, m, reach):
     n = 0
     for fid in sorted(reach):
@@ -400,10 +431,67 @@ def rule_K(chk, cfgname, m, reach):
         fname = pretty(f['full'])
         why = rule_K_body(m, f)
         key = '%s|%s|K-clone-fieldwise' % (cfgname, fname)
+        how = 'provenance'
+        if why is not None:
+            # not in the field-wise shape (e.g. an element-by-element copy loop): decide it semantically instead --
+            # interpreted on a symbolic `self`, every leaf of the result must carry the term of the same leaf of self
+            sem = clone_by_terms(m, f)
+            if sem is None:
+                why, how = None, 'terms'
+            else:
+                why = '%s; and by value numbering: %s' % (why, sem)
         if why is None:
-            chk.ok('K-clone-fieldwise', key, dict(fn=fname, derived=any('Derive' in x for x in f.get('expn', []))))
+            chk.ok('K-clone-fieldwise', key, dict(fn=fname, derived=any('Derive' in x for x in f.get('expn', [])), decided_by=how))
         else:
             chk.violation('K-clone-fieldwise', key, '%s (%s): clone is not field-wise: %s' % (fname, fn_loc(f), why))
+    return n
+
+
+def rule_K2(chk, cfgname, m):
+    """an overriding `Clone::clone_from` in /repo must leave *self field-wise equal to the source: interpreted with
+    terms on a symbolic destination and a symbolic source, every leaf of the destination must afterwards carry the
+    term of the same leaf of the source.  (The provided default is `*self = source.clone()`, covered by K.)"""
+    import equiv, engine
+    import terms as T
+    from interp import State, Ptr, _leaf_terms
+    n = 0
+    for name, info, inst in m.roots_of(op='clone_from'):
+        root = m.fn(inst)
+        over = [m.fn(i) for i in m.reachable(inst)
+                if m.fn(i)['crate'] in REPO_CRATES and m.fn(i).get('impl_trait') == 'core::clone::Clone' and m.fn(i).get('name') == 'clone_from']
+        if not over:
+            continue
+        n += 1
+        tyname = pretty(info['ty'])
+        key = '%s|%s|K2-clone-from' % (cfgname, tyname)
+        with equiv.TermMode():
+            engine._INTERPS.clear()
+            I = engine.mk_interp(m, 20_000_000)
+            st = State()
+            I.entry_state = st
+            ty = I.types[root['mir']['locals'][1]]['t']
+            objs = []
+            for nm in ('dst', 'src'):
+                I.fresh += 1
+                o = ('P', nm, I.fresh)
+                st.mem[o] = I.top(ty, nm)
+                objs.append(o)
+            I.entry_state = None
+            want = []
+            _leaf_terms(st.mem[objs[1]], want)
+            status, r = engine.run(I, inst, [Ptr(objs[0], (), None, None, None, None, True), Ptr(objs[1], (), None, None, None, None, False)], st)
+            if status != 'ok':
+                chk.fail_closed('K2-clone-from', key + '|run', '%s::clone_from: %s %s' % (tyname, status, str(r)[:200]))
+                continue
+            got = []
+            _leaf_terms(st.mem[objs[0]], got)
+        engine._INTERPS.clear()
+        bad = [i for i, (g, w) in enumerate(zip(got, want)) if g is None or g is not w]
+        if len(got) != len(want) or bad:
+            chk.violation('K2-clone-from', key, '%s::clone_from (%s) does not leave *self equal to the source: leaf %s of the destination is %s, the source has %s' % (
+                tyname, fn_loc(over[0]), bad[0] if bad else '?', T.show(got[bad[0]], 0, 3) if bad else len(got), T.show(want[bad[0]], 0, 3) if bad else len(want)))
+        else:
+            chk.ok('K2-clone-from', key, dict(type=tyname, fn='clone_from', leaves=len(want)))
     return n
 
 
@@ -473,6 +561,8 @@ def run(chk, facts_by_config):
             chk.floor('U-union-token', nu, 'U.' + cfgname)
             nk = rule_K(chk, cfgname, m, reach)
             chk.floor('K-clone-fieldwise', nk, 'K.' + cfgname)
+            nk2 = rule_K2(chk, cfgname, m)
+            chk.extra.setdefault('clone_from_overrides', {})[cfgname] = nk2
         for (cfgname, n, ob, di, by_rule, viols, samples) in dasync.get():
             chk.obligations += ob
             chk.discharged += di
